@@ -236,6 +236,9 @@ type session struct {
 	states []string
 }
 
+// sessMaxPayload: MaxPayloadLen of the BaseClient of new sessions (a limit for OUTBOUND publishes only).
+var sessMaxPayload = 0
+
 // sessReentrant: handlers of sessions call back into their own client (Handle, Err, Done).
 var sessReentrant = true
 
@@ -256,7 +259,7 @@ func newSession(handler bool, onPkt func(s *session, pkt []byte)) (*session, err
 		}
 		return nil
 	})
-	s.cli = &mqtt.BaseClient{Transport: s.conn}
+	s.cli = &mqtt.BaseClient{Transport: s.conn, MaxPayloadLen: sessMaxPayload}
 	s.cli.ConnState = func(st mqtt.ConnState, err error) {
 		s.mu.Lock()
 		s.states = append(s.states, fmt.Sprintf("%s:%s", st, errClass(err)))
